@@ -667,27 +667,40 @@ UnitsMap defineUnitsMap(const UnitsPtr &units)
     return unitsMap;
 }
 
-bool Units::requiresImports() const
+bool unitsRequireImports(const UnitsConstPtr &units, std::vector<UnitsConstPtr> &visitedUnits)
 {
     // Function to check child unit dependencies for imports.
-    if (isImport()) {
+    if (units->isImport()) {
         return true;
     }
 
-    auto model = owningModel(shared_from_this());
+    // Units that have already been looked at (or that are being looked at, in
+    // the case of a circular reference) do not need to be looked at again.
+    if (std::find(visitedUnits.begin(), visitedUnits.end(), units) != visitedUnits.end()) {
+        return false;
+    }
+    visitedUnits.push_back(units);
+
+    auto model = owningModel(units);
     if (model != nullptr) {
-        for (size_t u = 0; u < unitCount(); ++u) {
-            const std::string ref = unitAttributeReference(u);
+        for (size_t u = 0; u < units->unitCount(); ++u) {
+            const std::string ref = units->unitAttributeReference(u);
             auto child = model->units(ref);
-            if ((child == nullptr) || (this == child.get())) {
+            if (child == nullptr) {
                 continue;
             }
-            if (child->requiresImports()) {
+            if (unitsRequireImports(child, visitedUnits)) {
                 return true;
             }
         }
     }
     return false;
+}
+
+bool Units::requiresImports() const
+{
+    std::vector<UnitsConstPtr> visitedUnits;
+    return unitsRequireImports(shared_from_this(), visitedUnits);
 }
 
 bool Units::compatible(const UnitsPtr &units1, const UnitsPtr &units2)
